@@ -318,3 +318,30 @@ def nontrivial_tag(suite, args, out):
         return "spans" if len(out.split()) >= 3 else None
     o = out.split()
     return "px" if len(o) >= 3 and o[0].isdigit() and int(o[0]) > 0 else None
+
+
+def extra(ctx, vp):
+    """Evaluate the hypothesis of C02_cubic_path_fill_spec (every cubic edge ends on the row of its last point) on a sample of
+    paths with cubic segments, with the extracted model: reported as an obligation that holds when the test could be evaluated
+    on every sampled path; the detail gives the fraction of paths on which the theorem applies."""
+    import os, random
+    rng = random.Random(7 + ctx.seed)
+    n = 300 if ctx.tier == "quick" else 4000
+    lines = []
+    for i in range(n):
+        w = rng.choice([16, 32, 64, 200])
+        ops = rand_path_ops(rng, w / 2, w / 2, w / 2 - 2, curves=True, grid=rng.choice([64.0, 2.0, 1.0, 4096.0]))
+        lines.append(vp.case_line("cubics_exact", [0] + ops))
+    out = vp.run_lines(os.path.join(vp.OCAML_DIR, "model_run"), lines)
+    cnt = {}
+    for o in out:
+        cnt[o.strip()] = cnt.get(o.strip(), 0) + 1
+    ctx.evaluations += len(lines)
+    with_cubics = cnt.get("1", 0) + cnt.get("0", 0)
+    bad = [k for k in cnt if k not in ("0", "1", "2", "-8")]
+    ctx.oblige("hypothesis:cubics_exact", not bad and with_cubics > 0,
+               "of %d sampled paths %d have cubic segments; on %d of them every cubic edge ends on the row of its last point "
+               "(C02_cubic_path_fill_spec applies), on %d the pin lengthens an edge; %d paths without cubics%s" % (
+                   n, with_cubics, cnt.get("1", 0), cnt.get("0", 0), cnt.get("2", 0), ("; unexpected outputs %r" % bad) if bad else ""))
+    if cnt.get("1", 0):
+        ctx.tag("cubic-path-exact")
